@@ -1,3 +1,4 @@
+import re
 """C05 — memory usage accounting is exact and capacity-bounded without over-eviction (DESIGN.md §4 C05)."""
 from sa import mir, tables
 from sa.mir import backslice, AnchorMissing
@@ -244,6 +245,16 @@ def capacity_split(r, F):
               "shard_capacity_for ignores one of total / shards / index", ln=scf.lo)
     divs = [s for b in scf.blocks for s in b.stmts if s.k == "assign" and s.rv.k == "bin" and s.rv.op in ("Div", "Rem")]
     r.require({s.rv.op for s in divs} == {"Div", "Rem"}, scf, "quotient and remainder", "total / shards and total % shards", "the split no longer uses quotient and remainder", ln=scf.lo)
+    # exactly  total / shards + (index < total % shards): the shares add up to `total` only for this shape — no clamping (`max`, `min`, saturating ops) and no
+    # other arithmetic may take part in the result
+    ops = sorted({s_.rv.op for b in scf.blocks if not b.cleanup for s_ in b.stmts if s_.k == "assign" and s_.rv.k == "bin"})
+    foreign = sorted({(b.term.callee or "?") for b in scf.calls() if not re.search(r"convert::(From::from|Into::into)$", b.term.callee or "")})
+    allowed_ops = {"Div", "Rem", "Lt", "Gt", "Add", "AddWithOverflow", "AddUnchecked", "Eq", "Ne"}
+    ret = backslice(scf, 0, "dep")
+    r.require(not foreign and set(ops) <= allowed_ops and {"Div", "Rem"} <= set(ops) and bool({"Lt", "Gt"} & set(ops)), scf, "the split is exactly quotient + (index < remainder)",
+              "operators %s, no other call than the bool->usize conversion" % ops,
+              "shard_capacity_for is no longer `total / shards + (index < total %% shards)` (operators %s, calls %s): the shard capacities do not add up to the configured capacity, "
+              "so the cache as a whole settles above (or below) it" % (ops, [x.rsplit("::", 2)[-2:] for x in foreign]), ln=scf.lo)
     for short in ("foyer_memory::raw::RawCache::new", "foyer_memory::raw::RawCache::resize"):
         f = F.fn(short)
         sites = [(g, b) for g in [f] + F.descendants(f) for b in g.calls_to(r"RawCache::<E, S, I>::shard_capacity_for$")]
